@@ -42,7 +42,32 @@ LAYOUTS = ["100000", "100000", "100000", "3,100000", "1,0,2,100000", "16,16,1000
 
 class C03(DiffProperty):
     pid = "C03"
-    claimed = False
+    claimed = True
+    rule = ("cases: (a) EXHAUSTIVE: every byte string of length <=3 (quick) / <=4 (thorough) over the boundary alphabet "
+            "{00,01,02,1f,20,de,df,e0,e1,fe,ff} x every 2-way segmentation x 4 framings x slack {0,3}, each visibility step followed by "
+            "repeated decoder calls (resuming after every return code); (b) longer strings over the alphabet with random cuts, slack "
+            "0..40 and 1-, 2-, 3-, 4-fragment layouts incl. empty fragments; (c) streams of 1-3 valid frames (lengths 0..3, around one and "
+            "two maximal blocks, zero pairs at codes 1,2,31,32), 30% mutated (byte replaced/inserted/deleted), delivered whole, byte-wise or "
+            "at random cuts, with too little slack on purpose for ZPE, with peek/size calls sprinkled in. Fragments are separately allocated, "
+            "16-byte aligned, exact-size heap blocks under ASan/UBSan. non-trivial = every case; distinct = distinct case text")
+    modelled = ("mptcore/convert/decode_cobs.c (_decode, _decode_r) and decode_cobs_zpe.c macros in coq/Cobs/DecModel.v: state checks, "
+                "consumption of the previous message, target alignment (address residue = offset in the 16-aligned fragment), code byte read, "
+                "block loop with gap accounting, peek mode, size query, reset, COBS/R wrapper. mpt_decode_command (text framing), "
+                "mpt_message_read itself and queue_recv/queue_peek (C02) are not modelled here")
+    trusted = ["fragment bases are 16-byte aligned in the harness (posix_memalign), so the address residue the C code adds is the offset inside the fragment"]
+    assumptions = ["real memory safety of the C pointer walking is observed by ASan/UBSan on the explored cases, not proved"]
+    level_text = ("proof: Coq theorems for EVERY byte list and every well-formed resume state: one decoder call writes only into the already "
+                  "consumed part of the region and keeps the state well formed (C03_call_writes_only_consumed_part); gap accounting; resuming after "
+                  "exhausted input equals one call on the concatenation (any segmentation); a delivered message is the reference decoding of the "
+                  "consumed frame and a zero inside a block never becomes a message except as the COBS/R tail-inline decoding (honesty); well-formed "
+                  "frames are delivered as exactly the reference decoding when the gap suffices, and COBS / COBS/R need no slack. Tied to the code "
+                  "by differential execution (return code, full state and buffer image after every call) incl. the exhaustive small-string sweep")
+    level_note = ("partial: honesty/completeness are proved for the block loop (dec_loop) from a resume context inside the data part; the lifting "
+                  "of honesty through the call wrapper over multi-call histories (alignment, previous-message consumption) and resumption after "
+                  "MissingBuffer in the middle of a ZPE zero pair are covered by the correspondence run only. mpt_decode_command is not covered. "
+                  "Termination: the model is structurally recursive on the input (each byte read at most once); C-level termination is observed (per-case timeout). "
+                  "All theorems closed under the global context.")
+    technique = "Coq proofs over the in-place decoder model (safety region, gap invariant, honesty, completeness) + exhaustive small-scope differential check"
     coq_dir = "Cobs"
     propfile = "Properties_C03.v"
     extract_vo = "Cobs/ExtractDec.vo"
